@@ -391,6 +391,12 @@ func declIDRule(w *World, r *Result, rel string) int {
 			if idE == nil {
 				return true
 			}
+			// an ID is compared for equality to drop duplicates: building it through a case-folding function merges the
+			// IDs of two declarations whose names differ only by case (Go types Event and event), and one is dropped
+			if fold := caseFoldIn(w, fi, idE, 2); fold != "" {
+				n++
+				r.bad("DECL-ID", fi.Name, "ID "+es(idE)+" folded by "+fold, w.Pos(lit.Pos()), "the declaration ID passes through "+fold+": two declarations whose names differ only by case get one ID, so WriteDeclarations keeps one and silently drops the other")
+			}
 			var contents []ast.Expr
 			if contentE != nil {
 				contents = append(contents, contentE)
@@ -461,4 +467,40 @@ func declIDRule(w *World, r *Result, rel string) int {
 		})
 	}
 	return n
+}
+
+// caseFoldIn: e (or, depth bounded, the returned expression of a module function it calls) calls a case-folding
+// function; returns its name.
+func caseFoldIn(w *World, fi *FuncInfo, e ast.Expr, depth int) string {
+	info := fi.Pkg.TypesInfo
+	found := ""
+	ast.Inspect(e, func(x ast.Node) bool {
+		call, ok := x.(*ast.CallExpr)
+		if !ok || found != "" {
+			return true
+		}
+		fn := calleeOf(info, call)
+		if fn == nil {
+			return true
+		}
+		switch fn.FullName() {
+		case "strings.ToLower", "strings.ToUpper", "strings.ToLowerSpecial", "strings.ToUpperSpecial", "unicode.ToLower", "unicode.ToUpper", "bytes.ToLower", "bytes.ToUpper":
+			found = fn.FullName()
+			return false
+		}
+		if depth > 0 {
+			if callee := w.Funcs[fn]; callee != nil && callee.Decl.Body != nil && isStringType(fn.Type().(*types.Signature).Results().At(0).Type()) {
+				ast.Inspect(callee.Decl.Body, func(y ast.Node) bool {
+					if ret, ok := y.(*ast.ReturnStmt); ok && len(ret.Results) == 1 && found == "" {
+						if f := caseFoldIn(w, callee, ret.Results[0], depth-1); f != "" {
+							found = f + " (in " + callee.Name + ")"
+						}
+					}
+					return true
+				})
+			}
+		}
+		return true
+	})
+	return found
 }
